@@ -78,6 +78,11 @@ func Catalogue() map[string]Script {
 		mk("c07:silence-then-waiting-deadline", 4, 0, res(0, 1), res(1, 2), start(0), start(1), wok(0), wok(1), exp, res(2, 3))
 		mk("c07:idle-deadline-closes-idle-conn", 4, 0, res(0, 1), start(0), wok(0), reply(0, 100), exp, res(1, 1))
 		mk("c07:reply-then-silence", 4, 0, res(0, 1), res(1, 2), start(0), start(1), wok(0), wok(1), reply(0, 100), exp)
+		// a frame nobody waits for must leave the "waiting for a reply" state consistent: the next query
+		// written arms the waiting-reply deadline again
+		mk("c07:stray-then-query-then-silence", 4, 0, res(0, 1), start(0), wok(0), stray(9, 900), res(1, 2), start(1), wok(1), exp, res(2, 3))
+		mk("c07:late-reply-then-query-then-silence", 4, 10, res(0, 1), start(0), wok(0), cancel(0), reply(0, 100), res(1, 1), start(1), wok(1), exp)
+		mk("c07:reply-idle-then-query-then-silence", 4, 0, res(0, 1), start(0), wok(0), reply(0, 100), res(1, 1), start(1), wok(1), exp)
 		mk("c07:cancel-while-in-write", 4, 0, res(0, 1), start(0), cancel(0), wok(0))
 		mk("c07:close-while-in-write", 4, 0, res(0, 1), start(0), cls, wok(0))
 		mk("c07:reserve-after-faults", 2, 0, res(0, 1), start(0), werr(0), res(1, 1), res(2, 1))
